@@ -120,6 +120,27 @@ def _match_to_if(n):
     if len(arms) < 2:
         return None
     e = n["e"]
+    # (0) `match a.checked_sub(b) { None => A, Some(d) => B }` (simple a, b)  ->  if a < b {A} else { let d = a - b; B }
+    if e.get("k") == "MethodCall" and e.get("name") == "checked_sub" and e.get("cc") == "core" and len(e.get("args", [])) == 1 and len(arms) == 2 \
+            and _simple(e["recv"]) and _simple(e["args"][0]):
+        none = [a for a in arms if a["pat"].get("k") == "PLit" and a["pat"].get("name") == "None"]
+        some = [a for a in arms if a["pat"].get("k") == "PTupleStruct" and a["pat"].get("name") == "Some" and len(a["pat"].get("ps", [])) == 1 and a["pat"]["ps"][0].get("k") in ("PBind", "PWild")]
+        if len(none) == 1 and len(some) == 1:
+            sp = some[0]["pat"]["ps"][0]
+            body = some[0]["body"]
+            if sp.get("k") == "PBind":
+                diff = {"k": "Binary", "op": "-", "l": copy.deepcopy(e["recv"]), "r": copy.deepcopy(e["args"][0]), "s": e.get("s", "")}
+                if "t" in sp:
+                    diff["t"] = sp["t"]
+                let = {"k": "LetStmt", "pat": sp, "init": diff, "s": e.get("s", "")}
+                if body.get("k") == "Block" and not body.get("unsafe"):
+                    body = dict(body, stmts=[let] + list(body.get("stmts", [])))
+                else:
+                    blk = {"k": "Block", "stmts": [let], "expr": body, "s": body.get("s", "")}
+                    if "t" in body:
+                        blk["t"] = body["t"]
+                    body = blk
+            return _mk_if(_cmp("<", e["recv"], e["args"][0], n), none[0]["body"], body, n)
     # (1) literal arms on a simple scrutinee
     if _simple(e) and all(a["pat"].get("k") == "PLit" and a["pat"].get("lk") in ("int", "bool") for a in arms[:-1]):
         last = arms[-1]["pat"]
@@ -206,6 +227,12 @@ def normalize_body(body):
             init = x["init"]
             if init.get("k") == "AddrOf" and init["e"].get("k") in ("Index", "Field") and _place_ok(init["e"], mut_ids):
                 alias[x["pat"]["id"]] = init["e"]
+            # `let w = words.get_unchecked_mut(i)`: *w is the place *words.get_unchecked_mut(i)
+            if init.get("k") == "MethodCall" and init.get("name") == "get_unchecked_mut" and len(init.get("args", [])) == 1 and _place_ok(init["recv"], mut_ids):
+                i = init["args"][0]
+                pure_i = all(y.get("k") in ("Path", "Lit", "Binary", "Field", "Cast") and not (y.get("k") == "Path" and y.get("res") == "local" and y.get("id") in mut_ids) for y in _walk(i))
+                if pure_i:
+                    alias[x["pat"]["id"]] = {"k": "Unary", "op": "*", "e": init, "s": init.get("s", "")}
 
     def fn(n):
         k = n.get("k")
@@ -376,12 +403,71 @@ def inline_new_helpers(facts, known):
     return n_sites
 
 
-def int_classes(n):
+def inline_delegating_constructors(facts):
+    """A function whose value is a call `T::ctor(args)` of a constructor of the same file whose whole body is a struct
+    literal over its parameters (`from_raw_parts`) builds the structure exactly like the literal written in place (the
+    fields are private: only code of that file could write it): the call is replaced by the literal, so that the rules on
+    constructed fields see one form. Only the value (tail) of the function is rewritten; other uses stay calls."""
+    ctors = {}
+    for b in facts.bodies:
+        if b.dk in ("Fn", "AssocFn") and isinstance(b.body, dict) and b.body.get("k") == "Block" and not b.body.get("stmts") \
+                and isinstance(b.body.get("expr"), dict) and b.body["expr"].get("k") == "Struct" and "base" not in b.body["expr"] \
+                and b.params and all(q.get("k") == "PBind" for q in b.params):
+            st = b.body["expr"]
+            # every field is a parameter or a pure expression of parameters; no parameter is dropped
+            pids = set(q["id"] for q in b.params)
+            used = set(x.get("id") for x in _walk(st) if x.get("k") == "Path" and x.get("res") == "local")
+            if used == pids:
+                ctors.setdefault(b.path, []).append(b)
+    ctors = {p: bs[0] for p, bs in ctors.items() if len(bs) == 1}
+    if not ctors:
+        return 0
+    count = [0]
+    for b in facts.bodies:
+        if b.dk not in ("Fn", "AssocFn") or b.path in ctors or not isinstance(b.body, dict):
+            continue
+        # descend to the tail expression
+        holder, key = b, None
+        node = b.body
+        parent = None
+        while isinstance(node, dict) and node.get("k") == "Block" and isinstance(node.get("expr"), dict):
+            parent = node
+            node = node["expr"]
+        if parent is None or node.get("k") != "Call" or node.get("callee") is None:
+            continue
+        h = ctors.get(facts.paths[node["callee"]])
+        if h is None or h.file != b.file or len(node.get("args", [])) != len(h.params):
+            continue
+        count[0] += 1
+        suffix = "c%d" % count[0]
+        lit = _rename_ids(copy.deepcopy(h.body["expr"]), suffix, set())
+        stmts = []
+        for q, a in zip(h.params, node["args"]):
+            pid = "%s~%s" % (q["id"], suffix)
+            if _simple(a) and not q.get("mut"):
+                lit = _subst_local(lit, pid, a)
+            else:
+                pat = copy.deepcopy(q)
+                pat["id"] = pid
+                stmts.append({"k": "LetStmt", "pat": pat, "init": a, "s": node.get("s", "")})
+        lit["s"] = node.get("s", lit.get("s", ""))
+        lit["ctor_of"] = h.path
+        parent["stmts"] = list(parent.get("stmts", [])) + stmts
+        parent["expr"] = lit
+    return count[0]
+
+
+def int_classes(n, evalf=None):
     """The partition of an integer scrutinee made by an if-chain `if x <= a {A} else if x <= b {B} else {C}` (as
     produced from a range match, or written by hand): [(lo, hi, body), ..., (None, None, else-body)], None if n is not
     such a chain. Conditions understood: x <= K, x < K, K >= x, K > x, x == K, lo <= x && x <= hi."""
     def lit(e):
-        return int(e["v"]) if e.get("k") == "Lit" and e.get("lk") == "int" else None
+        if e.get("k") == "Lit" and e.get("lk") == "int":
+            return int(e["v"])
+        # a constant expression (named constant, 1 << 16): its value, when the caller can evaluate it
+        if evalf is not None and e.get("k") in ("Path", "Binary", "Cast") and not (e.get("k") == "Path" and e.get("res") == "local"):
+            return evalf(e)
+        return None
 
     def bound(c):
         # -> (lo or None, hi) for the condition, and the scrutinee node
